@@ -555,22 +555,22 @@ def decNfsBody (proc st : Nat) (bs : Bytes) : Option Body :=
     else decWccBody bs
   | _ => none
 
-/-- Exact decoder of the result of (program, procedure): the whole byte string must be consumed, the status
-    must be a member of nfsstat3 / mountstat3, and the body must have the RFC shape for that status. -/
-def decRes (prog proc : Nat) (bs : Bytes) : Option Res :=
+/-- Decoder of the result of (program, procedure): the whole byte string must be consumed and the body must
+    have the RFC shape for its status; with `strict` the status must be a member of nfsstat3 / mountstat3. -/
+def decResWith (strict : Bool) (prog proc : Nat) (bs : Bytes) : Option Res :=
   if prog = 100003 then
     if proc = 0 then (if bs = [] then some ⟨0, .void⟩ else none)
     else match decU32 bs with
       | none => none
       | some (st, r) =>
-        if st ∈ nfsstat3 then (decNfsBody proc st r).map fun b => ⟨st, b⟩ else none
+        if st ∈ nfsstat3 ∨ ¬ strict then (decNfsBody proc st r).map fun b => ⟨st, b⟩ else none
   else if prog = 100005 then
     match proc with
     | 0 | 3 | 4 => if bs = [] then some ⟨0, .void⟩ else none
     | 1 => (match decU32 bs with
       | none => none
       | some (st, r) =>
-        if st ∉ mountstat3 then none
+        if st ∉ mountstat3 ∧ strict then none
         else if st ≠ 0 then (done .statusOnly r).map fun b => ⟨st, b⟩
         else match decOpaque 64 r with
           | none => none
@@ -587,6 +587,9 @@ def decRes (prog proc : Nat) (bs : Bytes) : Option Res :=
       | some (l, r) => (done (.exportList l) r).map fun b => ⟨0, b⟩)
     | _ => none
   else none
+
+/-- the exact decoder (status must be a member of nfsstat3 / mountstat3) -/
+def decRes (prog proc : Nat) (bs : Bytes) : Option Res := decResWith true prog proc bs
 
 end Rfc
 end Absnfs
